@@ -23,27 +23,51 @@ vmon::install_virtual_clock!();
 // ------------------------------------------------------------------------------------------
 // actors: fresh worker threads per history; every decorated call runs on one of them
 // ------------------------------------------------------------------------------------------
+enum JobKind {
+    /// a complete call (gates open)
+    Call(fn(u32) -> CallOut),
+    /// create the future and poll it once with all gates closed
+    Start(fn(u32) -> vhooks::BoxFut),
+    /// let the suspended future pass one gate and poll it again
+    Step,
+    /// drop the suspended future
+    Drop,
+}
 struct Job {
-    call: fn(u32) -> CallOut,
+    kind: JobKind,
     slot: u32,
     arm: Option<ExecPlan>,
     pred: Option<bool>,
     check: Option<bool>,
 }
 struct JobOut {
-    out: Result<CallOut, String>,
+    /// Ok(Some) = completed, Ok(None) = pending (or dropped)
+    out: Result<Option<CallOut>, String>,
     events: Vec<Event>,
+    /// locks held by the actor thread when the job returned (must be empty at a suspension point)
+    held: Vec<String>,
 }
 struct Actor {
     tx: mpsc::Sender<Job>,
     rx: mpsc::Receiver<JobOut>,
     handle: Option<std::thread::JoinHandle<()>>,
 }
+fn panic_text(p: Box<dyn std::any::Any + Send>) -> String {
+    if let Some(s) = p.downcast_ref::<&str>() {
+        s.to_string()
+    } else if let Some(s) = p.downcast_ref::<String>() {
+        s.clone()
+    } else {
+        "non-string panic".into()
+    }
+}
 impl Actor {
     fn spawn() -> Actor {
         let (tx, jrx) = mpsc::channel::<Job>();
         let (otx, rx) = mpsc::channel::<JobOut>();
         let handle = std::thread::spawn(move || {
+            let mut susp: Option<vhooks::BoxFut> = None;
+            let waker = vhooks::noop_waker();
             while let Ok(j) = jrx.recv() {
                 vhooks::take_log();
                 match j.arm {
@@ -52,19 +76,65 @@ impl Actor {
                 }
                 vhooks::arm_pred(j.pred);
                 vhooks::arm_check(j.check);
-                let r = std::panic::catch_unwind(|| (j.call)(j.slot));
-                vhooks::disarm_exec();
-                let out = r.map_err(|p| {
-                    if let Some(s) = p.downcast_ref::<&str>() {
-                        s.to_string()
-                    } else if let Some(s) = p.downcast_ref::<String>() {
-                        s.clone()
-                    } else {
-                        "non-string panic".into()
+                let mut cx = std::task::Context::from_waker(&waker);
+                let out: Result<Option<CallOut>, String> = match j.kind {
+                    JobKind::Call(call) => {
+                        vhooks::gates_closed(false);
+                        let r = std::panic::catch_unwind(|| call(j.slot));
+                        if susp.is_some() {
+                            vhooks::gates_closed(true);
+                        }
+                        r.map(Some).map_err(panic_text)
                     }
-                });
+                    JobKind::Start(mk) => {
+                        vhooks::gates_closed(true);
+                        let mut f = mk(j.slot);
+                        let r = std::panic::catch_unwind(std::panic::AssertUnwindSafe(|| f.as_mut().poll(&mut cx)));
+                        match r {
+                            Ok(std::task::Poll::Ready(co)) => {
+                                vhooks::gates_closed(false);
+                                Ok(Some(co))
+                            }
+                            Ok(std::task::Poll::Pending) => {
+                                susp = Some(f);
+                                Ok(None)
+                            }
+                            Err(p) => {
+                                vhooks::gates_closed(false);
+                                Err(panic_text(p))
+                            }
+                        }
+                    }
+                    JobKind::Step => match susp.as_mut() {
+                        None => Ok(None),
+                        Some(f) => {
+                            vhooks::gate_permit(1);
+                            let r = std::panic::catch_unwind(std::panic::AssertUnwindSafe(|| f.as_mut().poll(&mut cx)));
+                            match r {
+                                Ok(std::task::Poll::Ready(co)) => {
+                                    susp = None;
+                                    vhooks::gates_closed(false);
+                                    Ok(Some(co))
+                                }
+                                Ok(std::task::Poll::Pending) => Ok(None),
+                                Err(p) => {
+                                    susp = None;
+                                    vhooks::gates_closed(false);
+                                    Err(panic_text(p))
+                                }
+                            }
+                        }
+                    },
+                    JobKind::Drop => {
+                        susp = None;
+                        vhooks::gates_closed(false);
+                        Ok(None)
+                    }
+                };
+                vhooks::disarm_exec();
                 let events = vhooks::take_log();
-                if otx.send(JobOut { out, events }).is_err() {
+                let held = vmon::lockmon::held_now().iter().map(|h| vmon::lockmon::fmt_site(h.site)).collect();
+                if otx.send(JobOut { out, events, held }).is_err() {
                     break;
                 }
             }
@@ -149,6 +219,12 @@ enum Op {
     InvDep(String),
     InvName(String),
     StatsReset { f: usize },
+    /// start an async call and poll it once with every await point closed (C20)
+    PollStart { f: usize, slot: u32, actor: usize, pure_: bool, value: u64, ok: bool, len: Option<usize>, pred: bool, check: bool },
+    /// open the next await point of the call suspended on `actor` and poll again
+    PollStep { actor: usize },
+    /// drop the call suspended on `actor`
+    PollDrop { actor: usize },
 }
 fn op_json(o: &Op) -> Value {
     match o {
@@ -161,6 +237,9 @@ fn op_json(o: &Op) -> Value {
         Op::InvDep(t) => json!({"op":"invalidate_by_dependency","name":t}),
         Op::InvName(t) => json!({"op":"invalidate_cache","name":t}),
         Op::StatsReset { f } => json!({"op":"stats_reset","f":f}),
+        Op::PollStart { f, slot, actor, pure_, value, ok, len, pred, check } => json!({"op":"poll_start","f":f,"slot":slot,"actor":actor,"pure":pure_,"value":value,"ok":ok,"len":len,"pred":pred,"check":check}),
+        Op::PollStep { actor } => json!({"op":"poll_step","actor":actor}),
+        Op::PollDrop { actor } => json!({"op":"poll_drop","actor":actor}),
     }
 }
 fn op_from(v: &Value) -> Op {
@@ -174,6 +253,9 @@ fn op_from(v: &Value) -> Op {
         "invalidate_by_event" => Op::InvEvent(v["name"].as_str().unwrap().into()),
         "invalidate_by_dependency" => Op::InvDep(v["name"].as_str().unwrap().into()),
         "invalidate_cache" => Op::InvName(v["name"].as_str().unwrap().into()),
+        "poll_start" => Op::PollStart { f: u("f") as usize, slot: u("slot") as u32, actor: u("actor") as usize, pure_: v["pure"].as_bool().unwrap(), value: u("value"), ok: v["ok"].as_bool().unwrap(), len: v["len"].as_u64().map(|x| x as usize), pred: v["pred"].as_bool().unwrap(), check: v["check"].as_bool().unwrap() },
+        "poll_step" => Op::PollStep { actor: u("actor") as usize },
+        "poll_drop" => Op::PollDrop { actor: u("actor") as usize },
         _ => Op::StatsReset { f: u("f") as usize },
     }
 }
@@ -233,7 +315,21 @@ impl Viol {
     }
 }
 
+/// a call suspended at an await point inside its body
+#[derive(Clone, Debug)]
+struct Susp {
+    f: usize,
+    slot: u32,
+    value: u64,
+    ok: bool,
+    pred: bool,
+    gates_passed: u32,
+    stale_refresh: bool,
+    interleaved_ops: u32,
+}
+
 struct Hist<'a> {
+    susp: HashMap<usize, Susp>,
     rep: &'a mut Report,
     proc_: &'a mut Proc,
     fns: Vec<FnMon>,
@@ -382,6 +478,8 @@ impl<'a> Hist<'a> {
                     "group-matching" => ("C12", "matching-cache-not-emptied"),
                     "group-nonmatching" => ("C13", "non-matching-cache-lost-entries"),
                     "stats_reset" => ("C15", "stats-reset-changed-cache"),
+                    "suspension" => ("C20", "suspended-call-changed-the-cache"),
+                    "drop" => ("C20", "dropped-call-left-traces"),
                     _ => ("C04", "store-content-changed-without-operation"),
                 };
                 Err(Viol { prop: prop.into(), sig: sig(prop, "L2", &cfg, kind, ""), what: format!("after {}: cache {} holds slots {:?}, model expects {:?}", ctx, m.d.reg_name, set, want), detail: json!({"fid": m.d.fid}) })
@@ -395,12 +493,28 @@ impl<'a> Hist<'a> {
         let cfg = self.fns[f].cfg;
         let wd = self.fns[f].wd;
         let arm = if pure_ { None } else { Some(ExecPlan { value: Some(value), ok, len }) };
-        let jo = self.actors[actor].run(Job { call: d.call, slot, arm, pred: Some(pred), check: Some(check) });
+        let jo = self.actors[actor].run(Job { kind: JobKind::Call(d.call), slot, arm, pred: Some(pred), check: Some(check) });
+        for s in self.susp.values_mut() {
+            s.interleaved_ops += 1;
+        }
+        if !self.susp.is_empty() {
+            self.rep.count("C20", "complete_calls_while_another_is_suspended", 1);
+        }
+        self.finish_call(f, slot, actor, pure_, value, ok, pred, check, jo, now)
+    }
+
+    /// everything after the real call returned: compare with the wrapper model
+    #[allow(clippy::too_many_arguments)]
+    fn finish_call(&mut self, f: usize, slot: u32, actor: usize, pure_: bool, value: u64, ok: bool, pred: bool, check: bool, jo: JobOut, now: i64) -> Result<(), Viol> {
+        let d = self.fns[f].d;
+        let cfg = self.fns[f].cfg;
+        let wd = self.fns[f].wd;
         self.rep.count("L2", "calls", 1);
         self.rep.count("C16", "calls_under_catch_unwind", 1);
         self.proc_.used.insert(d.fid);
         let co = match jo.out {
-            Ok(c) => c,
+            Ok(Some(c)) => c,
+            Ok(None) => return Err(Viol { prop: "C20".into(), sig: sig("C20", "L2", &cfg, "complete-call-did-not-complete", ""), what: "a call with every await point open returned Pending".into(), detail: json!({"fid": d.fid}) }),
             Err(msg) => {
                 let disc = format!("limit={},mem={}", d.limit.is_some(), d.max_memory.is_some());
                 return Err(Viol { prop: "C16".into(), sig: sig("C16", "L2", &cfg, "panic-in-decorated-call", &disc), what: format!("call of {} panicked: {}", d.fn_name, msg), detail: json!({"fid": d.fid, "attrs": d.attr_text, "panic": msg}) });
@@ -543,6 +657,167 @@ impl<'a> Hist<'a> {
             }
         }
         Ok(())
+    }
+
+    #[allow(clippy::too_many_arguments)]
+    fn do_poll_start(&mut self, f: usize, slot: u32, actor: usize, pure_: bool, value: u64, ok: bool, len: Option<usize>, pred: bool, check: bool) -> Result<(), Viol> {
+        let now = vmon::clock::now();
+        let d = self.fns[f].d;
+        let cfg = self.fns[f].cfg;
+        let wd = self.fns[f].wd;
+        let arm = if pure_ { None } else { Some(ExecPlan { value: Some(value), ok, len }) };
+        let jo = self.actors[actor].run(Job { kind: JobKind::Start(d.fut.unwrap()), slot, arm, pred: Some(pred), check: Some(check) });
+        self.proc_.used.insert(d.fid);
+        self.rep.count("C20", "calls_polled_by_hand", 1);
+        self.rep.count("L2", "polls", 1);
+        match &jo.out {
+            Ok(Some(_)) => {
+                // served from the cache before reaching an await point: an ordinary call
+                self.rep.count("C20", "polled_calls_completed_without_suspension", 1);
+                return self.finish_call(f, slot, actor, pure_, value, ok, pred, check, jo, now);
+            }
+            Err(msg) => {
+                return Err(Viol { prop: "C16".into(), sig: sig("C16", "L2", &cfg, "panic-in-polled-call", ""), what: format!("first poll of {} panicked: {}", d.fn_name, msg), detail: json!({"fid": d.fid, "panic": msg}) });
+            }
+            Ok(None) => {}
+        }
+        self.rep.count("C20", "suspensions_observed", 1);
+        if !jo.held.is_empty() {
+            return Err(Viol { prop: "C20".into(), sig: sig("C20", "L2", &cfg, "lock-held-at-await", ""), what: format!("{} returned Pending at its first await point while holding locks acquired at {:?}", d.fn_name, jo.held), detail: json!({"fid": d.fid, "attrs": d.attr_text, "held": jo.held}) });
+        }
+        let n_exec = jo.events.iter().filter(|e| matches!(e, Event::Exec { fid, .. } if *fid == d.fid)).count();
+        let n_check = jo.events.iter().filter(|e| matches!(e, Event::Check { fid, .. } if *fid == d.fid)).count() as u32;
+        if n_exec != 1 {
+            return Err(Viol { prop: "C20".into(), sig: sig("C20", "L2", &cfg, "pending-without-running-body", ""), what: format!("Pending although the body ran {} times", n_exec), detail: json!({"fid": d.fid}) });
+        }
+        *self.fns[f].execs.entry((actor, slot)).or_insert(0) += 1;
+        let exp_value = if pure_ { vhooks::mix(d.fid, (d.digest)(slot)) } else { value };
+        let exp_ok = if pure_ { true } else { ok || !d.is_result };
+        let plan = Plan { value: exp_value, ok: exp_ok, fp: 0, pred, check };
+        let listed = self.observe_listing(f, None)?;
+        let stats = stats_of(d.reg_name);
+        let mut stale = false;
+        let m = &mut self.fns[f];
+        let before = m.beliefs[0].states.clone();
+        let step = m.beliefs[0].advance(|s| {
+            let outs = wrapper::call(&cfg, &wd, s, slot as Key, now, &plan);
+            let mut keep = vec![];
+            let mut allowed = vec![];
+            for o in outs {
+                if allowed.len() < 6 {
+                    allowed.push(format!("executed={} why={:?} after-lookup={}", o.executed, o.why, model::fmt_state(&o.mid)));
+                }
+                if o.executed && o.n_check == n_check && listed.as_ref().map_or(true, |l| o.mid.keys() == *l) && stats.map_or(true, |g| (o.mid.hits, o.mid.misses) == g) {
+                    if o.why == Why::Stale {
+                        stale = true;
+                    }
+                    keep.push(o.mid.clone());
+                }
+            }
+            (keep, allowed)
+        });
+        if let Step::Empty { allowed, .. } = step {
+            return Err(Viol { prop: "C20".into(), sig: sig("C20", "L2", &cfg, "state-at-suspension-unexplained", ""), what: format!("{} slot {} suspended in its body: cache lists {:?}, stats {:?}; the model (a call that has only performed its lookup) allows {:?}", d.fn_name, slot, listed, stats, allowed), detail: json!({"fid": d.fid, "attrs": d.attr_text, "pre": before.first().map(model::fmt_state)}) });
+        }
+        self.rep.distinct("C20", hash64(&[d.fid as u64, 0, 0, before.first().map_or(0, |s| s.ents.len() as u64)]));
+        self.susp.insert(actor, Susp { f, slot, value: exp_value, ok: exp_ok, pred, gates_passed: 0, stale_refresh: stale, interleaved_ops: 0 });
+        Ok(())
+    }
+
+    fn do_poll_step(&mut self, actor: usize) -> Result<(), Viol> {
+        let s = match self.susp.get(&actor) {
+            None => return Ok(()),
+            Some(s) => s.clone(),
+        };
+        let now = vmon::clock::now();
+        let d = self.fns[s.f].d;
+        let cfg = self.fns[s.f].cfg;
+        let wd = self.fns[s.f].wd;
+        let jo = self.actors[actor].run(Job { kind: JobKind::Step, slot: s.slot, arm: None, pred: Some(s.pred), check: None });
+        self.rep.count("L2", "polls", 1);
+        match jo.out {
+            Err(msg) => {
+                self.susp.remove(&actor);
+                Err(Viol { prop: "C16".into(), sig: sig("C16", "L2", &cfg, "panic-in-polled-call", ""), what: format!("poll of {} panicked: {}", d.fn_name, msg), detail: json!({"fid": d.fid, "panic": msg}) })
+            }
+            Ok(None) => {
+                // suspended at the next await point
+                self.susp.get_mut(&actor).unwrap().gates_passed += 1;
+                self.rep.count("C20", "suspensions_observed", 1);
+                self.rep.distinct("C20", hash64(&[d.fid as u64, 1, s.gates_passed as u64 + 1, s.interleaved_ops.min(3) as u64]));
+                if !jo.held.is_empty() {
+                    return Err(Viol { prop: "C20".into(), sig: sig("C20", "L2", &cfg, "lock-held-at-await", ""), what: format!("{} returned Pending at await point {} while holding locks acquired at {:?}", d.fn_name, s.gates_passed + 1, jo.held), detail: json!({"fid": d.fid, "held": jo.held}) });
+                }
+                self.filter_by_listing(s.f, None, "suspension")?;
+                self.check_stats(s.f)
+            }
+            Ok(Some(co)) => {
+                self.susp.remove(&actor);
+                self.rep.count("C20", "suspended_calls_resumed_to_completion", 1);
+                if s.interleaved_ops > 0 {
+                    self.rep.count("C20", "resumed_after_interleaved_operations", 1);
+                }
+                self.rep.distinct("C20", hash64(&[d.fid as u64, 2, s.gates_passed as u64, s.interleaved_ops.min(3) as u64]));
+                let n_pred = jo.events.iter().filter(|e| matches!(e, Event::Pred { fid, .. } if *fid == d.fid)).count() as u32;
+                let n_exec = jo.events.iter().filter(|e| matches!(e, Event::Exec { fid, .. } if *fid == d.fid)).count();
+                if n_exec != 0 {
+                    return Err(Viol { prop: "C20".into(), sig: sig("C20", "L2", &cfg, "body-restarted-on-resume", ""), what: "the body started again when the suspended call was resumed".into(), detail: json!({"fid": d.fid}) });
+                }
+                if co.value != s.value || (d.is_result && co.ok != s.ok) {
+                    return Err(Viol { prop: "C20".into(), sig: sig("C20", "L2", &cfg, "resumed-call-returned-other-value", ""), what: format!("resumed call returned {:x}, its body produced {:x}", co.value, s.value), detail: json!({"fid": d.fid}) });
+                }
+                // store decision (same rules as for an uninterrupted call)
+                let (exp_pred, stored) = if wd.has_cache_if { (1, s.pred && !(wd.is_result && !wd.is_async && !s.ok)) } else { (0, !(wd.is_result && !s.ok)) };
+                if n_pred != exp_pred {
+                    return Err(Viol { prop: "C10".into(), sig: sig("C10", "L2", &cfg, "predicate-consulted-wrong-number-of-times", ""), what: format!("cache_if consulted {} times on completion of a resumed call, expected {}", n_pred, exp_pred), detail: json!({"fid": d.fid}) });
+                }
+                let listed = self.observe_listing(s.f, Some(s.slot))?;
+                let stats = stats_of(d.reg_name);
+                let m = &mut self.fns[s.f];
+                m.vals.insert(s.value, (s.ok, co.rdig));
+                let before = m.beliefs[0].states.clone();
+                let step = m.beliefs[0].advance(|st| {
+                    let mut outs: Vec<State> = if stored { model::store(&cfg, st, s.slot as Key, s.value, co.fp, now) } else { vec![st.clone()] };
+                    if !stored && s.stale_refresh {
+                        let mut t = st.clone();
+                        t.remove_keys(&std::iter::once(s.slot as Key).collect());
+                        outs.push(t);
+                    }
+                    let allowed: Vec<String> = outs.iter().take(5).map(model::fmt_state).collect();
+                    let keep: Vec<State> = outs.into_iter().filter(|o| listed.as_ref().map_or(true, |l| o.keys() == *l) && stats.map_or(true, |g| (o.hits, o.misses) == g)).collect();
+                    (keep, allowed)
+                });
+                if let Step::Empty { allowed, .. } = step {
+                    return Err(Viol { prop: "C20".into(), sig: sig("C20", "L2", &cfg, "resumed-call-did-not-store-normally", ""), what: format!("{} slot {} resumed after {} await points and {} interleaved operations: cache lists {:?}, stats {:?}; a normal store allows {:?}", d.fn_name, s.slot, s.gates_passed + 1, s.interleaved_ops, listed, stats, allowed), detail: json!({"fid": d.fid, "attrs": d.attr_text, "pre": before.first().map(model::fmt_state)}) });
+                }
+                let m = &mut self.fns[s.f];
+                if stored {
+                    m.stored_by.insert(s.slot, actor);
+                    m.nostore.remove(&s.slot);
+                } else {
+                    m.nostore.insert(s.slot, if wd.has_cache_if && !s.pred { StoreDecision::SkippedPredicate } else { StoreDecision::SkippedErr });
+                }
+                Ok(())
+            }
+        }
+    }
+
+    fn do_poll_drop(&mut self, actor: usize) -> Result<(), Viol> {
+        let s = match self.susp.remove(&actor) {
+            None => return Ok(()),
+            Some(s) => s,
+        };
+        let d = self.fns[s.f].d;
+        let cfg = self.fns[s.f].cfg;
+        let jo = self.actors[actor].run(Job { kind: JobKind::Drop, slot: s.slot, arm: None, pred: None, check: None });
+        self.rep.count("C20", "suspended_calls_dropped", 1);
+        self.rep.distinct("C20", hash64(&[d.fid as u64, 3, s.gates_passed as u64, s.interleaved_ops.min(3) as u64]));
+        if !jo.held.is_empty() {
+            return Err(Viol { prop: "C20".into(), sig: sig("C20", "L2", &cfg, "lock-held-after-drop", ""), what: format!("locks acquired at {:?} are still held after the suspended call was dropped", jo.held), detail: json!({"fid": d.fid}) });
+        }
+        // as if the call had only performed its lookup: nothing in the cache or the statistics changes
+        self.filter_by_listing(s.f, None, "drop")?;
+        self.check_stats(s.f)
     }
 
     fn count_call_evidence(&mut self, f: usize, bi: usize, slot: u32, now: i64, pure_: bool, ok: bool, pred: bool, check: bool) {
@@ -783,6 +1058,15 @@ impl<'a> Hist<'a> {
                 Ok(())
             }
             Op::Call { f, slot, actor, pure_, value, ok, len, pred, check } => self.do_call(*f, *slot, *actor, *pure_, *value, *ok, *len, *pred, *check),
+            Op::PollStart { f, slot, actor, pure_, value, ok, len, pred, check } => {
+                if self.fns[*f].d.fut.is_none() || self.susp.contains_key(actor) {
+                    self.do_call(*f, *slot, *actor, *pure_, *value, *ok, *len, *pred, *check)
+                } else {
+                    self.do_poll_start(*f, *slot, *actor, *pure_, *value, *ok, *len, *pred, *check)
+                }
+            }
+            Op::PollStep { actor } => self.do_poll_step(*actor),
+            Op::PollDrop { actor } => self.do_poll_drop(*actor),
             Op::InvWith { f, slots } => {
                 let strs = self.pred_strings(*f, slots);
                 let name = self.fns[*f].d.reg_name;
@@ -903,6 +1187,7 @@ fn in_focus(d: &FnDesc, focus: &str) -> bool {
         "C12" => !d.scope_thread,
         "C13" => !d.scope_thread,
         "C15" => !d.scope_thread,
+        "C20" => d.is_async,
         _ => true,
     }
 }
@@ -966,6 +1251,29 @@ fn gen_op(g: &mut Gen, h: &Hist, n_actors: usize, focus: &str) -> Op {
         "C14" | "C03" | "C09" | "C10" | "C11" | "C01" => (if any_ttl { 10 } else { 1 }, 2, 1, 1, 0),
         _ => (if any_ttl { 12 } else { 1 }, 3, 1, 2, 1),
     };
+    if focus == "C20" {
+        let r = g.rng.usize(100);
+        let busy: Vec<usize> = h.susp.keys().copied().collect();
+        if !busy.is_empty() {
+            let a = *g.rng.pick(&busy);
+            if r < 28 {
+                return Op::PollStep { actor: a };
+            }
+            if r < 36 {
+                return Op::PollDrop { actor: a };
+            }
+        }
+        if r >= 36 && r < 62 {
+            let asyncs: Vec<usize> = (0..nf).filter(|i| h.fns[*i].d.fut.is_some()).collect();
+            let free: Vec<usize> = (0..n_actors).filter(|a| !h.susp.contains_key(a)).collect();
+            if !asyncs.is_empty() && !free.is_empty() {
+                let f = *g.rng.pick(&asyncs);
+                if let Op::Call { f, slot, pure_, value, ok, len, pred, check, .. } = gen_call(g, h, f, n_actors, focus) {
+                    return Op::PollStart { f, slot, actor: *g.rng.pick(&free), pure_, value, ok, len, pred, check };
+                }
+            }
+        }
+    }
     let r = g.rng.usize(100);
     let mut acc = w_adv;
     if r < acc {
@@ -1101,7 +1409,7 @@ fn run_history(rep: &mut Report, proc_: &mut Proc, group: &[usize], n_actors: us
     let mut rng = Rng::new(seed ^ hist_id.wrapping_mul(0x9E37_79B9_7F4A_7C15));
     let fns: Vec<FnMon> = group.iter().map(|i| new_fnmon(&corpus::FUNCS[*i], n_actors, &mut rng, focus)).collect();
     let actors: Vec<Actor> = (0..n_actors).map(|_| Actor::spawn()).collect();
-    let mut h = Hist { rep, proc_, fns, actors, ops: vec![], focus: focus.to_string(), seed, hist_id };
+    let mut h = Hist { susp: HashMap::new(), rep, proc_, fns, actors, ops: vec![], focus: focus.to_string(), seed, hist_id };
     h.rep.count("L2", "histories", 1);
     let mut g = Gen { rng, serial: serial0 };
     let res: Result<(), Viol> = (|| {
@@ -1117,6 +1425,20 @@ fn run_history(rep: &mut Report, proc_: &mut Proc, group: &[usize], n_actors: us
                 for _ in 0..len {
                     let op = gen_op(&mut g, &h, n_actors, focus);
                     h.apply(&op)?;
+                }
+                // calls still suspended are resumed to completion or dropped
+                let busy: Vec<usize> = h.susp.keys().copied().collect();
+                for a in busy {
+                    if g.rng.chance(1, 2) {
+                        for _ in 0..4 {
+                            if h.susp.contains_key(&a) {
+                                h.apply(&Op::PollStep { actor: a })?;
+                            }
+                        }
+                    }
+                    if h.susp.contains_key(&a) {
+                        h.apply(&Op::PollDrop { actor: a })?;
+                    }
                 }
                 // closing sweep: every slot of every function once more, on actor 0
                 for f in 0..h.fns.len() {
@@ -1135,7 +1457,7 @@ fn run_history(rep: &mut Report, proc_: &mut Proc, group: &[usize], n_actors: us
         Ok(()) => {
             if hist_id % 1_000_003 == (hist_id / 1_000_003) % 97 {
                 let s = json!({"group": h.fns.iter().map(|m| m.d.attr_text).collect::<Vec<_>>(), "actors": n_actors, "ops": h.ops.iter().take(30).map(op_json).collect::<Vec<_>>(), "ops_total": h.ops.len(), "verdict": "every observation explained by the model"});
-                for p in ["C01", "C03", "C09", "C10", "C11", "C12", "C13", "C14", "C15", "C16", "C19"] {
+                for p in ["C01", "C03", "C04", "C05", "C06", "C07", "C08", "C09", "C10", "C11", "C12", "C13", "C14", "C15", "C16", "C19", "C20"] {
                     h.rep.sample(p, s.clone(), 1);
                 }
             }
@@ -1198,6 +1520,8 @@ fn main() {
     }
     std::panic::set_hook(Box::new(|_| {}));
     vmon::clock::init();
+    // per-thread stacks of held locks (for "no lock held at a suspension point", C20)
+    vmon::lockmon::install();
     let t0 = vmon::clock::real_mono_ns();
     let mut rep = Report::new();
     let mut proc_ = Proc { used: BTreeSet::new() };
